@@ -1,5 +1,4 @@
 import Eav.Model
-import Eav.Props.Tie.Init
 import Eav.Props.C04
 import Eav.Lemmas.Str
 /-!
